@@ -16,10 +16,12 @@ EXTENDS Naturals, Sequences, FiniteSets, TLC
 
 Entries == {"lib", "cli_plain", "cli_json", "cli_skip", "cli_odk", "cli_json_skip"}
 Forms == {"valid", "invalid"}
-Outcomes == {"ok_silent", "ok_stderr", "reject", "reject_rc2", "reject_rc255_empty", "reject_arbitrary", "killed", "killed_term",
-             "java_absent", "corrupt_jar"}
+Outcomes == {"ok_silent", "ok_stderr", "ok_stderr_bytes", "reject", "reject_rc2", "reject_rc255_empty", "reject_arbitrary", "reject_bytes",
+             "killed", "killed_term", "java_absent", "corrupt_jar"}
 \* "exit > 0 with arbitrary stderr": any positive exit status is a rejection, whatever the validator printed
-Rejects == {"reject", "reject_rc2", "reject_rc255_empty", "reject_arbitrary", "corrupt_jar"}
+\* (..._bytes: the validator's stderr is not valid UTF-8 - "arbitrary stderr" includes arbitrary bytes)
+Rejects == {"reject", "reject_rc2", "reject_rc255_empty", "reject_arbitrary", "reject_bytes", "corrupt_jar"}
+AcceptsWithStderr == {"ok_stderr", "ok_stderr_bytes"}
 Killed == {"killed", "killed_term"}
 Validates(e) == e \notin {"cli_skip", "cli_json_skip"}
 IsCli(e) == e # "lib"
@@ -52,7 +54,7 @@ RunValidator:                          \* check_xform -> run_popen_with_timeout
   called := TRUE; sawfile := ("tmp" \in tmpfiles);
 Classify:
   if vout \in Rejects then exc := "ODKValidateError";     \* return code > 0
-  elsif vout = "ok_stderr" then warn := warn \cup {"stderr"};
+  elsif vout \in AcceptsWithStderr then warn := warn \cup {"stderr"};
   elsif vout \in Killed then warn := warn \cup {"bad_return_code"};       \* negative return code
   end if;
 Finally:                               \* finally: tmp_path.unlink(missing_ok=True)
@@ -145,7 +147,7 @@ Classify == /\ pc = "Classify"
             /\ IF vout \in Rejects
                   THEN /\ exc' = "ODKValidateError"
                        /\ warn' = warn
-                  ELSE /\ IF vout = "ok_stderr"
+                  ELSE /\ IF vout \in AcceptsWithStderr
                              THEN /\ warn' = (warn \cup {"stderr"})
                              ELSE /\ IF vout \in Killed
                                         THEN /\ warn' = (warn \cup {"bad_return_code"})
@@ -230,7 +232,7 @@ CodeMapping == (Done /\ IsJson(entry)) =>
                   /\ ((exc = "none" /\ warn = {}) <=> code = 100)
 \* the validator's verdict is honoured: reject => failure; accept => success with its stderr surfaced
 VerdictHonoured == Done => /\ ((form = "valid" /\ Validates(entry) /\ vout \in Rejects) => exc = "ODKValidateError")
-                           /\ ((form = "valid" /\ Validates(entry) /\ vout = "ok_stderr") => (exc = "none" /\ "stderr" \in warn))
+                           /\ ((form = "valid" /\ Validates(entry) /\ vout \in AcceptsWithStderr) => (exc = "none" /\ "stderr" \in warn))
                            /\ ((form = "valid" /\ Validates(entry) /\ vout = "ok_silent") => (exc = "none" /\ warn = {}))
                            /\ ((form = "valid" /\ Validates(entry) /\ vout = "java_absent") => exc = "OSError")
                            /\ (form = "invalid" => exc = "PyXFormError")
